@@ -12,6 +12,24 @@ CHECKS = {
  "C02": ("translation_validation", "runtime monitoring: parsers recover variant names and every tag/content key site incl. synthesized Swift/Go (de)coders; oracle = real serde_json",
          "Variant wire names, tag/content keys at every site they are spelled and the one-case-per-variant structure are compared with real serde output for every variant of every generated enum x 6 languages.",
          "Same trusted base as C01; Swift/Go encoder bodies are analysed by token patterns (forKey:, CodingKeys., case arms, json tags).", "5/C02"),
+ "C03": ("exploration", "runtime monitoring: output parsers attribute every definition/member to a source element by unique stems; oracle = the generator's item list",
+         "Thousands of generated files with annotated and decoy items at module depth 0-4 and skip markers on random subsets; every definition, field and variant of the output of each backend is attributed by stem and compared (count, kind, order) with the model; decoy/skipped stems searched over the whole output.",
+         "Trusts the output parsers and the stem scheme (q+5 letters, no other q in generated words). Two recorded findings (Scala drops consts, unions ignored).", "5/C03"),
+ "C04": ("exploration", "runtime monitoring with a model table plus a metamorphic oracle (required sibling of the same type)",
+         "The full product {T, Option<T>, Option<Option<T>>} x {no default, bare default, merged forms} x wrappers x positions is generated per base type and each backend's optional markers and underlying type are read back and compared.",
+         "Trusts the parsers' marker extraction; double-option distinguishability is required for TypeScript only, as the property states.", "5/C04"),
+ "C05": ("exploration", "runtime monitoring: every type use site is parsed back into a tree and compared with an independent reference translator and per-language category/range tables",
+         "All type trees of depth <= 2 over the property's alphabet (exhaustive) plus random trees to depth 5, with random prefix and type_mappings tables, in 4 positions and 6 languages.",
+         "Reference translator and primitive tables are written from the property text; TS nested Option may be dropped (stated assumption). 8 recorded findings (Scala unsigned aliases, Go rune).", "5/C05"),
+ "C06": ("exploration", "runtime monitoring of the real binary under controlled and real schedules (collector hook permutations, thread counts, injected delays, fresh processes), byte-equality oracle; ThreadSanitizer and Miri in thorough",
+         "Every arrival-order permutation for k<=5/6 files, sampled permutations for larger trees, thread counts 1..16 x delay seeds with distinct delivered orders counted from the hook log, repeated processes for hash seeds, and re-splits; 6 languages, single/multi-file.",
+         "Trusts the hook to deliver the requested order (read back from its log). A clean TSan/Miri run is 'no report on N runs', not memory safety. Two defects found and repaired (fix: commits).", "5/C06"),
+ "C07": ("exploration", "runtime monitoring: catch_unwind around the library pipeline and process-level observation of the real binary (exit status, stderr, output presence, CPU time, /proc thread-state dead-lock diagnosis); Miri on the edge corpus in thorough",
+         "Liveness restated as bounded progress. ~85 hand-written edge classes x 6 languages x 2 modes through library and binary, a file-system fault tree, thousands of generated programs with hostile type forms and the mutated snapshot corpus.",
+         "Watchdog 20 s wall + /proc diagnosis; unreadable files approximated by invalid UTF-8/symlink faults (sandbox runs as root). 16 recorded findings (panic sites, hang after worker panic, diagnostics without file name).", "5/C07"),
+ "C13": ("exploration", "runtime monitoring against an executable reference rule written from the property text; exhaustive enumeration of cfg expressions",
+         "All cfg expressions to depth 3 (depth 4 over a reduced alphabet in thorough) x all 16 target lists x 5 attachment levels through the library, random deep expressions and multi-attribute elements, and the real binary with every documented option spelling.",
+         "The evaluator (N = names under any not, P = others) is the oracle; presence is read from generated TypeScript. One defect found and repaired (comma-separated --target-os).", "5/C13"),
  "C16": ("exploration", "runtime monitoring with a differential oracle: vendored serde_derive case.rs; exhaustive enumeration of identifiers <= 7 over class representatives",
          "All identifiers up to length 7 over {a,B,7,_,é} x 9 rules x field/variant position are pushed through parser::parse and compared with serde_derive's own algorithm; the finite space is enumerated completely (exhaustive: true) and extended by dictionary/random identifiers.",
          "case.rs is a verbatim vendored copy (validated against the running derive by C01/C02); identifiers on which serde itself panics are out of domain. 44 pinned disagreements are listed in known_findings.json.", "5/C16"),
